@@ -258,6 +258,27 @@ class Engine:
         r = self.by_name[name]
         return self.mirs[r['mir']].get(name)
 
+    def fn_file(self, name):
+        """source file a function's body comes from (impl headers carry it; for free functions it is read from the first span comment)"""
+        memo = self.__dict__.setdefault('_fn_file', {})
+        if name in memo:
+            return memo[name]
+        r = self.by_name.get(name) or {}
+        f = r.get('file')
+        if not f and r:
+            mir = self.mirs[r['mir']]
+            try:
+                s0, e0 = mir.index[name]
+                for ln in mir.lines[s0:min(e0, s0 + 400)]:
+                    m = re.search(r'\bat (src/[^:\s]+\.rs):\d+', ln)
+                    if m:
+                        f = m.group(1)
+                        break
+            except Exception:
+                f = None
+        memo[name] = f or ''
+        return memo[name]
+
     def resolve_call(self, callee, nargs):
         """callee text from a MIR call terminator -> header name or None"""
         mi = re.match(r"^((?:[A-Za-z_0-9]+::)*)<impl (?:<[^>]*> )?([A-Za-z_0-9:]+)(?:<.*?>)?>::([A-Za-z_0-9]+)(?:::<.*>)?$", callee)
@@ -751,7 +772,9 @@ class Engine:
         if m:
             t = m.group(1)
             if t.startswith('{closure@'):
-                return Tup([], t)
+                # `{closure@..} as fn(..) -> .. (PointerCoercion(ClosureFnPointer(..)))`: the value is still the capture-less closure
+                mc = re.match(r'^(\{closure@[^}]*\})', t)
+                return Tup([], mc.group(1) if mc else t)
             m2 = re.search(r'\{([^{}]*)\}$', t)
             if m2:
                 return FnItem(m2.group(1))
@@ -1349,7 +1372,7 @@ class Engine:
                 return [(s, 'ret', self.uninterpreted_call(s, callee, args, ci))]
         # 4. inline crate function
         name = self.resolve_call(callee, len(args))
-        if name is not None and self.inline_only is not None and not any(rx.search(name) or rx.search(callee) for rx in self.inline_only):
+        if name is not None and self.inline_only is not None and not any(rx.search(name) or rx.search(callee) or rx.search(self.fn_file(name)) for rx in self.inline_only):
             return [(s, 'ret', self.uninterpreted_call(s, callee, args, ci))]
         if name is not None:
             cfn = self.get_fn(name)
